@@ -15,7 +15,9 @@ EXPLANATION = ('Python evaluator: the get_value body of every node class is prov
                '  Round 2 (c01c): the LOOP-BUILT signature lines of bioMultSum, ConditionalSum, Elem, bioLinearUtility, _bioLogLogit, '
                '_bioLogLogitFullChoiceSet and BelongsTo are under contract for any number of terms (loop invariants over the engine lexer readings of the '
                'partially built line: class tag, id, count, and for every term k the ids / keys / indices at the positions bioFormula.cc reads; '
-               'children signatures first, in order, as a recursive concatenation).')
+               'children signatures first, in order, as a recursive concatenation).'
+               '  Round 3 (m4): PowerConstant.get_value has no domain precondition any more: outside the domain it raises BiogemeError IFF '
+               'the base is negative and the exponent is not an integer.')
 LEVEL_TEXT = ('Deductive proof for the Python evaluator and the Python-side plumbing; the compiled engine is an assumed dependency contract '
               'sampled by a bounded harness (not counted as proved).'
               '  The n-ary signature lines are deductive for all arities (c01c); the child layout set by the constructors is bounded.')
